@@ -156,15 +156,15 @@ type liveWatcher struct {
 	sel    [][]selTerm
 	id     string
 	// Go-side monitor: replica built from delivered events
-	replica    map[string]resource.Resource
-	errored    bool
-	bootstrap  bool
-	bootDone   bool
-	lastBm     int64
-	haveBm     bool
-	caughtUp   bool
-	startKind  string
-	delivered  []state.Event
+	replica   map[string]resource.Resource
+	errored   bool
+	bootstrap bool
+	bootDone  bool
+	lastBm    int64
+	haveBm    bool
+	caughtUp  bool
+	startKind string
+	delivered []state.Event
 }
 
 type scenarioResult struct {
